@@ -600,3 +600,31 @@ def rule_observer_exit(ctx, rid, r):
     ws = [n for n in run.own_nodes() if isinstance(n, ast.With) and any(norm(it.context_expr) == "progress_observer" for it in n.items)]
     ctx.ob(rid, f"{run.short}/observer-with", len(ws) == 1, loc(run), "run enters the observer with one with-statement" if len(ws) == 1
            else f"{len(ws)} with-statements on the observer")
+
+
+# ------------------------------------------------------------------------------------------------ C09.W' / C14.D4
+def rule_run_uses_returned_pair(ctx, rid, r):
+    """run executes (and returns from a dry run) the plan and output node returned by the registry application."""
+    m = ctx.model
+    run = r.run
+    acalls = calls_to(m, run, r.apply)
+    ctx.floor(rid, "registry application call sites in run", len(acalls), 1)
+    for c in acalls:
+        st = stmt_of(run.module, c)
+        ok = isinstance(st, ast.Assign) and isinstance(st.targets[0], ast.Tuple) and len(st.targets[0].elts) == 2 and \
+            all(isinstance(x, ast.Name) for x in st.targets[0].elts)
+        ctx.ob(rid, f"{run.short}/destructures-result", ok, loc(run, c), "run rebinds (plan, output node) from the transformation" if ok
+               else "run ignores part of the transformation's result", norm(st)[:100])
+        if not ok:
+            continue
+        pn, on = (x.id for x in st.targets[0].elts)
+        for x in calls_to(m, run, r.run_physical):
+            a0 = arg(x, 0, "plan")
+            ao = arg(x, None, "output_node")
+            ok = is_name(a0, pn) and is_name(ao, on)
+            ctx.ob(rid, f"{run.short}/executes-returned-pair", ok, loc(run, x),
+                   f"execution receives ({pn}, {on})" if ok else
+                   "execution does not receive the transformed plan and the redirected output node", norm(x)[:120])
+        oa = arg(c, None, "output_node")
+        on_in = norm(oa) if oa is not None else None
+        ctx.ob(rid, f"{run.short}/passes-output", oa is not None, loc(run, c), f"gathered output {on_in} handed to the transformation")
